@@ -19,7 +19,8 @@ EXPLANATION = (
     "quality_scores_are_stored_as_array, alignment_starts_are_deltas, records_have_names) are used by functions of the same "
     "stem in the slice reader and the slice writer; (R5) record counter advanced only by flush with records.len()."
     " (R6) append-buffer discipline for the CRAM header text reader and the name tokenizer's token reader."
-    " R5 also decides, for the sync and the async flush, that the len() feeding `record_counter +=` is taken from the very collection (normalised place identity) that was handed to write_container.")
+    " R5 also decides, for the sync and the async flush, that the len() feeding `record_counter +=` is taken from the very collection (normalised place identity) that was handed to write_container."
+    " (R7) the reader recomputes TLEN of in-slice mates from min(start) and max(END) of both segments: both alignment_end() results feed one max().")
 ASSUMPTIONS = ["flate2 Crc/CrcReader/CrcWriter compute CRC32 of exactly the bytes passed through", "md5 crate",
                "function-stem pairing (read_x <-> write_x) reflects the symmetric structure of the two record codecs (floor-checked)"]
 NOT_DECIDED = ["record equality: feature/CIGAR/base reconstruction, mate resolution, every encoder option x codec",
@@ -257,6 +258,22 @@ def run(ctx):
                           "container and slice is wrong (read names generated from it collide)" % (
                               key, sorted(a10.fmt_ident(f, x) for x in counted if x), a10.fmt_ident(f, written) if written else "?"), f.loc())
     ctx.floor("C07.R5", "CRAM writer flush() bodies (sync + async)", nfl, 2)
+
+    ctx.rule("C07.R7", "A7 span of a template: the reader recomputes TLEN of in-slice mates from min(start of both segments) and max(END of both "
+                       "segments) — each alignment_end() result feeds the maximum")
+    ft = ctx.anchor("C07.R7", K + "io::reader::container::slice::calculate_template_length_chunk")
+    if ft is not None:
+        ends = [c["dest"][0] for b, c in ft.calls() if re.search(r"calculate_template_length_chunk::alignment_end$", c.get("f") or "")]
+        maxes = [c for b, c in ft.calls() if re.search(r"(cmp::Ord::max|core::cmp::max|Ord>::max)$", c.get("f") or "")]
+        mins = [c for b, c in ft.calls() if re.search(r"(cmp::Ord::min|core::cmp::min|Ord>::min)$", c.get("f") or "")]
+        fed = [c for c in maxes if sum(1 for e in ends if any(R.derives_from_local(ft, a, e) for a in c["args"])) >= 2]
+        if len(ends) >= 2 and fed and mins:
+            ctx.ok("C07.R7", ft.key + " :: end = max(end(record), end(mate)), start = min(..)", "%d alignment_end call(s)" % len(ends), ft.loc())
+        else:
+            ctx.violation("C07.R7", "C07.R7/template-end-not-max/" + ft.key,
+                          "calculate_template_length_chunk no longer takes the template end as the maximum of BOTH segments' alignment ends "
+                          "(alignment_end calls: %d, max() fed by both: %d, min(): %d): when the upstream read extends past its mate's end, |TLEN| "
+                          "comes back too small on both mates" % (len(ends), len(fed), len(mins)), ft.loc())
 
 
 def _writes_static(key):
